@@ -11,6 +11,12 @@ CHECKS = {
   "technique": "Lean 4 proof over hand-written executable model + differential correspondence (harness vs lean_exe driver) + translator-regenerated constants",
   "design_ref": "DESIGN.md section 6 / C16",
  },
+ "C20": {
+  "text": "Lean theorems on the executable packet-sender model: for every sequence of enqueue / emit(flush id) / acknowledge(any base id) / fragment-ack operations the sender survives, send_buffer_size equals queued payload bytes plus payload bytes in the send window and the allocation counter equals the fragment-rounded window bytes (C20_inv); no counter subtraction ever underflows (C20_no_underflow); empty queue and window give 0 (C20_zero). Model tied to the code by byte-exact correspondence of two real HalfConnections under loss/dup/reorder with a probe of (total_size, queued bytes, window bytes, alloc) every few ticks; the same invariant is evaluated directly on the implementation's probe.",
+  "note": "Trusted: Lean kernel (propext, Quot.sound), extract_consts.py, harness/driver, cfg(uflow_verif) read-only probe; ring buffer modelled as FIFO of ids base..next.",
+  "technique": "Lean 4 invariant proof by induction over operation sequences + differential correspondence on generated two-endpoint scenarios",
+  "design_ref": "DESIGN.md section 6 / C20",
+ },
 }
 
 NOT_YET = "check not built yet (work in progress; see DESIGN.md section 11 for the order)"
